@@ -283,4 +283,37 @@ theorem val_lt_irrefl0 (a : JVal) (ha : depth a = 0) : Val.lt a a = false := by
   cases a <;> simp_all [depth, Val.lt, Str.lt_irrefl, realLt]
   rename_i k; cases k <;> simp [realLt]
 
+/-! ### `==` on pointer-free values is equality of what the comparisons read; full transitivity -/
+
+theorem val_eq_true_imp_eq0 (a b : JVal) (ha : depth a = 0) (hb : depth b = 0)
+    (h : Val.eq a b = true) : a = b := by
+  cases a <;> cases b <;> simp_all [depth, Val.eq]
+  · exact (str_eq_iff _ _ ▸ h : decide (_ = _) = true) |> of_decide_eq_true
+  · rename_i x y
+    cases x <;> cases y <;> simp_all [realEq]
+
+theorem val_trans0 (a b c : JVal) (ha : depth a = 0) (hb : depth b = 0) (hc : depth c = 0) :
+    Obs.trans (obsVal a b) (obsVal b c) (obsVal a c) = true := by
+  simp only [Obs.trans, obsVal, val_le_eq]
+  cases hE1 : Val.eq a b with
+  | true =>
+    have := val_eq_true_imp_eq0 a b ha hb hE1
+    subst this
+    simp only [val_lt_irrefl0 a ha]
+    cases Val.lt a c <;> cases Val.eq a c <;> simp
+  | false =>
+    cases hE2 : Val.eq b c with
+    | true =>
+      have := val_eq_true_imp_eq0 b c hb hc hE2
+      subst this
+      simp only [val_lt_irrefl0 b hb, hE1]
+      cases Val.lt a b <;> simp
+    | false =>
+      cases hL1 : Val.lt a b <;> cases hL2 : Val.lt b c <;> simp
+      simp [val_lt_trans0 a b c ha hb hc hL1 hL2]
+
+theorem obsVal_strip (a b : JVal) (h : depth a = depth b) : obsVal a b = obsVal (strip a) (strip b) := by
+  simp only [obsVal, val_le_eq, val_ge_eq]
+  rw [val_lt_strip a b (by omega), val_gt_strip a b (by omega), val_eq_strip a b (by omega)]
+
 end Qentem.Order
